@@ -166,11 +166,12 @@ def parse_state(text):
     return st
 
 
-def parse_dump(path):
+def parse_dump(path, contains=None):
+    """contains: parse only the states whose text contains this substring (large dumps)"""
     with open(path) as f:
         txt = f.read()
     parts = re.split(r"^State \d+:\s*$", txt, flags=re.M)
-    return [parse_state(p) for p in parts[1:] if p.strip()]
+    return [parse_state(p) for p in parts[1:] if p.strip() and (contains is None or contains in p)]
 
 
 def to_tla(v):
@@ -238,7 +239,7 @@ _RE_DEPTH = re.compile(r"The depth of the complete state graph search is (\d+)")
 
 def run_tlc(module, cfg, workdir=None, workers=16, dump=False, extra=(), env=None, timeout=3600,
             cont=True, simulate=None, depth=None, seed=None, deadlock=False, heap=None, keep=False,
-            coverage=False, extra_files=(), jvm=()):
+            coverage=False, extra_files=(), jvm=(), dump_filter=None):
     """Run TLC on spec/<module>.tla with spec/<cfg> (or an absolute cfg path).
 
     All spec/*.tla files are copied into a scratch directory so generated modules (constants, traces) can
@@ -349,7 +350,7 @@ def run_tlc(module, cfg, workdir=None, workers=16, dump=False, extra=(), env=Non
         if dump:
             dp = os.path.join(wd, "dump.dump")
             if os.path.exists(dp):
-                res.dump = parse_dump(dp)
+                res.dump = parse_dump(dp, dump_filter)
         if coverage:
             for m in re.finditer(r"<(\w+) line (\d+), col \d+ to line \d+, col \d+ of module (\w+)>: (\d+):(\d+)", out):
                 res.coverage["%s.%s" % (m.group(3), m.group(1))] = (int(m.group(4)), int(m.group(5)))
